@@ -63,6 +63,10 @@ def tla_val(v):
     """JSON-like python value -> TLA+ expression; python str -> TLA+ string, Chars(...) -> code points."""
     if isinstance(v, Chars):
         return tla_seq(cps(v.s))
+    if isinstance(v, TlaSet):
+        return "{" + ", ".join(tla_val(x) for x in v.items) + "}"
+    if isinstance(v, TlaRaw):
+        return v.text
     if isinstance(v, bool):
         return "TRUE" if v else "FALSE"
     if isinstance(v, int):
@@ -74,6 +78,18 @@ def tla_val(v):
     if isinstance(v, dict):
         return "[" + ", ".join("%s |-> %s" % (k, tla_val(x)) for k, x in v.items()) + "]"
     raise ValueError(v)
+
+
+class TlaSet:
+    def __init__(self, items):
+        self.items = list(items)
+
+
+class TlaRaw:
+    """a literal TLA+ expression"""
+
+    def __init__(self, text):
+        self.text = text
 
 
 class Chars:
@@ -166,7 +182,9 @@ def gen_module(d, name, base, consts):
     lines = ["---- MODULE %s ----" % name, "EXTENDS %s" % base]
     cfg = []
     for k, v in consts.items():
-        if isinstance(v, (int, bool)) and not isinstance(v, bool):
+        if isinstance(v, bool):
+            cfg.append(" %s = %s" % (k, "TRUE" if v else "FALSE"))
+        elif isinstance(v, int):
             cfg.append(" %s = %d" % (k, v))
         elif isinstance(v, str):
             cfg.append(" %s = %s" % (k, json.dumps(v)))
@@ -214,7 +232,7 @@ def tlc_generate(d, name, base, consts, cfgbody, out_path, defaults=None, timeou
                 if defaults:
                     for k, v in defaults.items():
                         rec.setdefault(k, v)
-                rec["id"] = "%s:%s" % (name, rec.get("id", n))
+                rec["id"] = "%s:%s" % (name, rec.get("id") or n)
                 fo.write(json.dumps(rec, separators=(",", ":")) + "\n")
                 n += 1
             elif line.startswith("Error:") and seen_err is None:
@@ -299,7 +317,7 @@ def tlc_validate(d, trace_path, invariants, timeout=900, skip=(), name="Trace", 
         mod = "TV%02d" % k
         local_skip = [s_ - off for s_ in skip if off < s_ <= off + cnt]
         with open(os.path.join(d, mod + ".tla"), "w") as f:
-            f.write("---- MODULE %s ----\nEXTENDS %s\nSkipSet == {%s}\nTVInit == TraceInit /\\ b \\notin SkipSet\n====\n"
+            f.write("---- MODULE %s ----\nEXTENDS %s\nExcludedBeh == {%s}\nTVInit == TraceInit /\\ b \\notin ExcludedBeh\n====\n"
                     % (mod, name, ", ".join(str(x) for x in local_skip)))
         with open(os.path.join(d, mod + ".cfg"), "w") as f:
             f.write(cfgtext)
